@@ -44,6 +44,8 @@ def run(ctx: Ctx, tier: str) -> Result:
         # nothing may follow the update in its branch, and the branch must be the end of the function
         outer = paths.block_position(p, pos[0]) if isinstance(pos[0], ast.If) else None
         after_if = getattr(outer[0], outer[1])[outer[2] + 1:] if outer else []
+        if paths.always_exits(getattr(pos[0], pos[1])):
+            after_if = []       # the branch ends in return/raise: what follows the `if` is not executed after this update
         tail_sites = [s for s in g.sites(poll) if any(paths.within(p, s.node, x) for x in after_if) and g.site_escapes(s, poll)]
         if not later_sites and not tail_sites:
             res.ok("C12.FAIL", {"update is the last effect": norm(u)[:80]})
@@ -89,10 +91,16 @@ def run(ctx: Ctx, tier: str) -> Result:
             res.fail(Finding("C12.STATE", others[0][0].qname, paths.stmt_of(p, others[0][1]), others[0][0].loc(others[0][1]), "%s is also written outside update_new_config" % fld))
         else:
             res.ok("C12.STATE", {fld: "written only by update_new_config"})
-    pr = [c for c in t.calls_in(poll) if any(e.endswith("PollRequest") for e in t.resolve_call(c, poll).ext)]
+    pcls = p.cls(POLL)
+    pr, prf = [], poll
+    for f_ in [poll] + [x for lst in pcls.methods.values() for x in lst if x is not poll]:
+        found_ = [c for c in t.calls_in(f_) if any(e.endswith("PollRequest") for e in t.resolve_call(c, f_).ext)]
+        if found_:
+            pr, prf = found_, f_
+            break
     need(len(pr) == 1, "poll: PollRequest construction not found")
     kw = {k.arg: k.value for k in pr[0].keywords}
-    ch = ctx.expand.expand(kw["current_hash"], poll) if "current_hash" in kw else []
+    ch = ctx.expand.expand(kw["current_hash"], prf) if "current_hash" in kw else []
     if ch and ch[0].endswith("._current_hash"):
         res.ok("C12.STATE", {"reported hash": ch[0]})
     else:
